@@ -105,10 +105,18 @@ Definition verdict_edges (all : edges) (base : registry) (picks : list nat) (obs
     else if registry_eqb (format (pick_edges all picks)) r then 0 else 1
   end%N.
 
-Definition verdict_fixture (app : bool) (d : dump) (es : edges) (reg : registry) (crates : list string) : N :=
+(* the dumped has_field/has_variant flags of the edges against the model's *)
+Definition flags_ok (es : edges) (flags : list (bool * bool)) : bool :=
+  list_eqb (fun a b => Bool.eqb (fst a) (fst b) && Bool.eqb (snd a) (snd b))
+           (map (fun e => (has_field (fst e) (snd e), has_variant (fst e) (snd e))) es) flags.
+
+Definition is_nil {A} (l : list A) : bool := match l with [] => true | _ => false end.
+Definition bit (b : bool) (n : N) : N := if b then n else 0%N.
+
+Definition verdict_fixture (app : bool) (d : dump) (es : edges) (flags : list (bool * bool)) (reg : registry) (crates : list string) : N :=
   (if negb (contiguousb reg && closed_mod_requestb reg) then 2
    else if negb (closedb reg) && (app || negb (known_request_without_effect reg)) then 2
-   else if negb (fixture_ok d es reg crates) then 1
+   else if negb (fixture_ok d es reg crates && flags_ok es flags) then 1
    else if negb (closedb reg) then 101 else 0)%N.
 
 (* the CLI's registry for a capability crate against the schema traced from the real serde impls *)
@@ -125,11 +133,11 @@ Definition dangling (r : registry) : list string :=
 Definition is_enum_item (x : item) : bool := match it_kind x with KEnum _ => true | _ => false end.
 Definition fmt_mentions (s : string) (f : fmt) : bool := existsb (String.eqb s) (fmt_names f).
 
-(* class childless_enum_undefined: [s] is the Rust name of a reached enum none of whose variants is
+(* class childless_enum_undefined: [s] is the Rust name of a reached enum (a candidate item) none of whose variants is
    present (no variants, or all skipped): the container rule for enums needs one variant edge *)
-Definition known_childless (es : edges) (s : string) : bool :=
-  existsb (fun e => opt_str_eqb (it_raw (snd e)) s && is_enum_item (snd e)
-                    && negb (existsb (fun e' => same_item (fst e') (snd e) && has_variant (fst e') (snd e')) es)) es.
+Definition known_childless (cands : list item) (es : edges) (s : string) : bool :=
+  existsb (fun t => opt_str_eqb (it_raw t) s && is_enum_item t
+                    && negb (existsb (fun e' => same_item (fst e') t && has_variant (fst e') (snd e')) es)) cands.
 (* class nested_range_undefined: a present field mentions Range but is not itself a Range field
    (Option<Range<T>>, Vec<Range<T>>, tuples): only direct Range fields produce the Range container *)
 Definition known_nested_range (es : edges) (s : string) : bool :=
@@ -138,32 +146,32 @@ Definition known_nested_range (es : edges) (s : string) : bool :=
                        && match it_fmt (snd e), it_range (snd e) with Some f, None => fmt_mentions "Range" f | _, _ => false end) es.
 (* class renamed_type_reference: [s] is the Rust name of a reached type whose container is keyed by a
    different serde(rename) name: references are formatted from the path, definitions from name() *)
-Definition known_renamed (es : edges) (s : string) : bool :=
-  existsb (fun e => opt_str_eqb (it_raw (snd e)) s && negb (opt_str_eqb (it_name (snd e)) s)
-                    && (is_struct (snd e) || is_enum_item (snd e))) es.
-
-Definition is_nil {A} (l : list A) : bool := match l with [] => true | _ => false end.
-Definition bit (b : bool) (n : N) : N := if b then n else 0%N.
+Definition known_renamed (cands : list item) (s : string) : bool :=
+  existsb (fun t => opt_str_eqb (it_raw t) s && negb (opt_str_eqb (it_name t) s)
+                    && (is_struct t || is_enum_item t)) cands.
+(* the reached types: every item on an edge, and the roots (a root with nothing to serialise has no edge) *)
+Definition reached (d : dump) (es : edges) : list item := items_of es ++ d_root d.
 
 (* a synthetic description: the untransformed run (dump, edges, registry) and the registries of the
    transformed runs *)
-Definition verdict_synth (d : dump) (es : edges) (base : registry) (crates : list string)
+Definition verdict_synth (d : dump) (es : edges) (flags : list (bool * bool)) (base : registry) (crates : list string)
                          (obs : list (option registry)) : N :=
   let amb := negb (unambiguousb (containers es)) in
   let all_same := forallb (fun o => match o with Some r => registry_eqb r base | None => false end) obs in
   let dang := dangling base in
-  let explained := fun s => known_childless es s || known_nested_range es s || known_renamed es s in
+  let cands := reached d es in
+  let explained := fun s => known_childless cands es s || known_nested_range es s || known_renamed cands s in
   let no_effect := known_request_without_effect base in
   (if negb (contiguousb base) then 2
    else if negb all_same && negb amb then 2
    else if negb (forallb explained dang) then 2
    else if negb (closedb base) && is_nil dang && negb no_effect then 2
-   else if negb (wf_edges es
+   else if negb (wf_edges es && flags_ok es flags
                  && closure_matches (closure gid_eqb (fuel_for d) (gfacts d) []) es
                  && closure_matches (run_crates gid_eqb (fuel_for d) (map (fun c => gfacts (crate_dump d c)) crates)) es
                  && closure_matches (run_crates gid_eqb (fuel_for d) (map (fun c => gfacts (crate_dump d c)) (rev crates))) es
                  && (amb || registry_eqb (format es) base)) then 1
    else let b := bit (negb (closedb base) && is_nil dang && no_effect) 1 + bit (amb && negb all_same) 2
-                 + bit (existsb (known_childless es) dang) 4 + bit (existsb (known_nested_range es) dang) 8
-                 + bit (existsb (known_renamed es) dang) 16 in
+                 + bit (existsb (known_childless cands es) dang) 4 + bit (existsb (known_nested_range es) dang) 8
+                 + bit (existsb (known_renamed cands) dang) 16 in
         if N.eqb b 0 then 0 else 100 + b)%N.
